@@ -271,6 +271,7 @@ void Runtime::mutex_unlock(mutex* m) {
     ::std::unique_lock<::std::mutex> lk(s.m);
     unlock_internal(s, m, tl_self);
     lk.unlock(); observe(K_UNLOCK, m->id, 0, 0);
+    if (s.cfg.post_points) point(K_YIELD, nullptr);
 }
 
 void Runtime::cv_wait(condvar* c, mutex* m) {
@@ -297,8 +298,8 @@ void Runtime::cv_notify(condvar* c, bool all) {
     auto& q = s.cv_waiters[c];
     guided_advance(tl_self, all ? K_NOTIFY_ALL : K_NOTIFY_ONE);
     if (observer()) observer()(tl_self, all ? K_NOTIFY_ALL : K_NOTIFY_ONE, c->id, (long long)q.size(), 0);
-    if (q.empty()) return;
-    if (all) { for (int id : q) s.th[id].st = RUN; q.clear(); return; }
+    if (q.empty()) { if (s.cfg.post_points) { lk.unlock(); point(K_YIELD, nullptr); } return; }
+    if (all) { for (int id : q) s.th[id].st = RUN; q.clear(); if (s.cfg.post_points) { lk.unlock(); point(K_YIELD, nullptr); } return; }
     size_t idx = 0;
     if ((s.cfg.strategy == SCRIPT || s.cfg.strategy == GUIDED) && s.waiter_pos < s.cfg.waiter_script.size()) idx = s.cfg.waiter_script[s.waiter_pos++] % q.size();
     else idx = s.rng() % q.size();
@@ -307,6 +308,7 @@ void Runtime::cv_notify(condvar* c, bool all) {
     q.erase(q.begin() + idx);
     s.th[id].st = RUN;
     if (observer()) observer()(tl_self, K_USER, c->id, id, 0);      // which waiter was woken
+    if (s.cfg.post_points) { lk.unlock(); point(K_YIELD, nullptr); }
 }
 
 void Runtime::atomic_pre(const void* obj, uint64_t* ver, bool write) {
